@@ -9,21 +9,24 @@ Statement: {p['statement']}
 Quantifier: {p['quantifier']['text']}
 Code the property is anchored in: {', '.join(p['anchors']['files'])}
 """
+import os
+WT = os.environ.get("SEED_WT", pid)   # worktree name /tmp/seed_<WT> (several agents may work on one property)
+FOCUS = os.environ.get("SEED_FOCUS", "")  # optional extra paragraph: where / what kind of change is wanted in this round
 hint = " (prefer mechanisms that are NOT the first thing that comes to mind: think about rarely taken branches, state carried across reconnects, buffer boundaries, error paths, ordering between two goroutines, interactions between two features)" if len(sys.argv) > 2 else ""
 print(f"""You are a careful Go engineer helping to evaluate a verification effort. Your task is to SEED realistic defects into a copy of the Go library mdzio/go-mqtt (an in-memory MQTT 3.1.1 broker and client library: packet codec in message/, broker/client engine in service/, sessions/, topics/).
 
-Your private working copy is the git worktree /tmp/seed_{pid} (the library at its current commit). Work ONLY inside /tmp/seed_{pid}. Do NOT read, list or modify anything under /verif, and do NOT modify /repo. Do not run `git commit`. Every shell call must begin with: `export GOFLAGS=-mod=mod GOPROXY=off GOSUMDB=off GOTOOLCHAIN=local` (there is no network; the environment does not persist between calls). Go is 1.23.
+Your private working copy is the git worktree /tmp/seed_{WT} (the library at its current commit). Work ONLY inside /tmp/seed_{WT}. Do NOT read, list or modify anything under /verif, and do NOT modify /repo. Do not run `git commit`. Every shell call must begin with: `export GOFLAGS=-mod=mod GOPROXY=off GOSUMDB=off GOTOOLCHAIN=local` (there is no network; the environment does not persist between calls). Go is 1.23.
 
 The property to break:
 
 {prop}
-Produce TWO different changes{hint} to the library source (different mechanisms, different code sites where possible), each of which:
+{FOCUS}Produce TWO different changes{hint} to the library source (different mechanisms, different code sites where possible), each of which:
  1. makes the library VIOLATE the property above (observable through the library's API / wire behaviour as the statement describes it);
- 2. still compiles (`go build ./...` and `go vet ./message ./service ./sessions ./topics` need not be clean, but build must pass) and still passes the existing test suite: the 131 tests listed in /root/.vp/BASELINE.json under "stable_pass" must still pass (`cd /tmp/seed_{pid} && go test -json -vet=off -count=1 ./... 2>/dev/null` and compare the passing test names with that list; tests listed under "always_fail" fail already; `service::TestServiceConnectAuthError` is flaky at baseline because other tests race for TCP port 1883 - rerun if only that one is missing);
+ 2. still compiles (`go build ./...` and `go vet ./message ./service ./sessions ./topics` need not be clean, but build must pass) and still passes the existing test suite: the 131 tests listed in /root/.vp/BASELINE.json under "stable_pass" must still pass (`cd /tmp/seed_{WT} && go test -json -vet=off -count=1 ./... 2>/dev/null` and compare the passing test names with that list; tests listed under "always_fail" fail already; `service::TestServiceConnectAuthError` is flaky at baseline because other tests race for TCP port 1883 - rerun if only that one is missing);
  3. is REALISTIC and SUBTLE: something a maintainer could plausibly introduce (an optimisation, a refactoring slip, an off-by-one, a dropped or reordered synchronisation step, a wrong boundary, a stale cache, a copy replaced by a reference, ...), and that needs something SPECIFIC to manifest - a particular interleaving, a fault at a particular point, a multi-step sequence of operations, an unusual but valid input (a boundary length, a rare flag combination, many items, a wrap-around), or two cooperating sites that each look fine alone. Changes that ordinary use would expose at once (e.g. every publish lost) are NOT wanted.
  4. comes with a DEMONSTRATION: a Go test file (preferred: an in-package `_test.go` you add to the relevant package, or an external test/main program in its own directory inside the worktree) that FAILS with your change applied and PASSES on the unmodified library. Run it both ways yourself (use `git stash` / `git diff > file; git checkout -- <files>; ...; git apply file` to switch) and record the outputs. The library has a build tag `verif` (see service/verif_on.go) exposing test hooks such as `(*Server).VerifServe(net.Conn)`, `VerifNewBuffer`, yield/event handlers; you may use them in the demonstration (run with `-tags verif`) - driving a real broker over net.Pipe via VerifServe is the easiest way to show broker-level effects. Keep each demonstration deterministic if at all possible (if it needs a schedule, force it with the hooks or with retries and state the hit rate).
 
-Deliver, for change N in {{1,2}}, the directory /tmp/seed_{pid}/SEED/N/ containing:
+Deliver, for change N in {{1,2}}, the directory /tmp/seed_{WT}/SEED/N/ containing:
   - patch.diff   : `git diff` of the library source change ONLY (no demo files, no SEED files); it must apply with `git apply` to a clean checkout;
   - the demonstration file(s) (copies), plus demo_cmd.txt with the exact command(s) to run it from the worktree root and where the demo file must be placed;
   - meta.json    : {{"property": "{pid}", "summary": "...what was changed...", "needs_to_manifest": "...what specific input / sequence / interleaving is needed...", "demo_fails_with_patch": "<last lines of output>", "demo_passes_without_patch": true, "baseline_still_passes": true}}.
